@@ -295,8 +295,12 @@ static int do_load(const char *data, size_t len)
 
 static const char *SEVN[] = { "debug", "command", "info", "warning", "error", "fatal" };
 static const char *FACS[] = { "f1", "f2", "f3" };
-static const char *FILES[] = { "A", "B", "C", "a" };      /* "a": a destination whose name differs from "A" in case only */
-#define NFILES 4
+/* "a": a destination whose name differs from "A" in case only;  LA / LB: two names that agree in their first 255 characters (with the "file:" prefix) */
+#define VH_LONGDIR "xxxxxxxxxxxxxxxxxxxxxxxxxxxxxxxxxxxxxxxxxxxxxxxxxxxxxxxxxxxxxxxxxxxxxxxxxxxxxxxxxxxxxxxxxxxxxxxxxxxxxxxxxxxxxxxxxxxxxxxxxxxxxxxxxxxxxxxxxxxxxxxxxxxxxxxxxxxxxxxxxxxxxxxxxxxxxxxxxxxxxxxxxxxxxxxxxxxxxxxx"
+#define VH_LONGPFX VH_LONGDIR "/yyyyyyyyyyyyyyyyyyyyyyyyyyyyyyyyyyyyyyyyyyyyyyyyyyyyyyyyyyyy"
+static const char *FILES[] = { "A", "B", "C", "a", VH_LONGPFX "A", VH_LONGPFX "B" };
+static const char *FILEKEYS[] = { "A", "B", "C", "a", "LA", "LB" };
+#define NFILES 6
 
 static void emit_all(const char *tag, struct char_vector *out)
 {
@@ -329,7 +333,7 @@ static void emit_all(const char *tag, struct char_vector *out)
     }
     for (k = 0; k < NFILES; ++k) {
         FILE *f = fopen(FILES[k], "r");
-        char_vector_append_printf(out, "\"%s\":", FILES[k]);
+        char_vector_append_printf(out, "\"%s\":", FILEKEYS[k]);
         if (!f) { char_vector_append_string(out, "null,"); continue; }
         {
             struct char_vector all;
@@ -762,6 +766,7 @@ int e2_conf_main(int argc, char **argv)
     log_set_verbosity(0);
     mfd = memfd_create("conf", 0);
     snprintf(mpath, sizeof(mpath), "/proc/self/fd/%d", mfd);
+    if (mkdir(VH_LONGDIR, 0700) < 0) {}     /* for the two long destination names */
     conf_get_root();    /* config_init + log_init: the live tree now holds logs{verbose_timestamp} */
     printf("{\"ready\":1}\n");
     fflush(stdout);
